@@ -22,6 +22,11 @@ def check_balance(chk, rule, prog, eff, cache, N, B, ctors, fnames=None, floor=N
         for k, pa in enumerate(cache.get(f.name)):
             owned = (0,) if f.name == "_cbor_builder_append" else ()
             res = B.analyse(f, pa, owned_params=owned)
+            for (t_, mv, ce) in B.lost:
+                key = (f.name, "moved", ce.ins.id)
+                worst[key] = (False, "reference moved into %s" % ce.callee,
+                              "cbor_move gave up the only reference before %s, which takes one only on success: if it fails the item is "
+                              "owned by nobody (leak)" % ce.callee, ce.ins.loc(), pa)
             # raw frees of owned items: only legal for an item that owns no separate block yet
             raw = {}
             for e in pa.events:
@@ -159,44 +164,7 @@ def run(ctx, chk):
                    detail=det, path=pa.block_lines() if not ok else None)
     chk.floor("C06.blocks", "allocation sites", nblocks, 26)
 
-    # ---- atomicity
-    natom = 0
-    for name in CONTAINER_OPS:
-        f = prog.fn(name)
-        where = "%s:%d" % (f.file, f.line)
-        CONT = ("arg", 0)
-        for k, pa in enumerate(cache.get(name)):
-            if pa.ret != ("c", 0):
-                # success, or result of a nested container operation (its own atomicity is checked)
-                if not is_const(pa.ret):
-                    callee_ev = [e for e in pa.events if e.kind == "call" and e.res == pa.ret]
-                    ok = bool(callee_ev) and callee_ev[0].callee in CONTAINER_OPS
-                    # before delegating, nothing may have been modified unless that earlier step succeeded
-                    natom += 1
-                    chk.ob("C06.atomic", "%s path %d delegates to %s" % (name, k, callee_ev[0].callee if callee_ev else "?"), ok, where,
-                           fn=name, key="%s:delegate:%d" % (name, k))
-                continue
-            bad = []
-            for e in pa.events:
-                if e.kind == "store":
-                    b = ptr_key(e.args[0])[0]
-                    if P.derives(b, CONT):
-                        bad.append("store at %s" % e.ins.loc())
-                elif e.kind == "call" and e.ckind == "lib":
-                    if e.callee == "cbor_incref":
-                        bad.append("incref at %s" % e.ins.loc())
-                    elif e.callee in CONTAINER_OPS:
-                        if pa.st.truth.get(e.res) is not False and not _falsy(pa.st, e.res):
-                            bad.append("nested %s succeeded before the failure at %s" % (e.callee, e.ins.loc()))
-                    elif e.callee in ("_cbor_realloc_multiple",):
-                        if not pa.st.known_null(e.res):
-                            bad.append("reallocation succeeded but the operation reports failure (block lost) at %s" % e.ins.loc())
-                    elif e.callee == "cbor_intermediate_decref" or e.callee == "cbor_decref":
-                        bad.append("release at %s" % e.ins.loc())
-            natom += 1
-            chk.ob("C06.atomic", "%s path %d returns false without side effects" % (name, k), not bad, where, fn=name,
-                   key="%s:false:%d" % (name, k), detail="; ".join(bad), path=pa.block_lines() if bad else None)
-    chk.floor("C06.atomic", "failure paths of container operations", natom, 12)
+    check_atomic(chk, "C06.atomic", prog, cache, floor=12)
 
     # ---- failure channel
     f = prog.fn("cbor_serialize_alloc")
@@ -248,3 +216,46 @@ def _falsy(st, r):
         if x == r and truth is False:
             return True
     return False
+
+
+def check_atomic(chk, rule, prog, cache, floor=None):
+    natom = 0
+    for name in CONTAINER_OPS:
+        f = prog.fn(name)
+        where = "%s:%d" % (f.file, f.line)
+        CONT = ("arg", 0)
+        for k, pa in enumerate(cache.get(name)):
+            if pa.ret != ("c", 0):
+                # success, or result of a nested container operation (its own atomicity is checked)
+                if not is_const(pa.ret):
+                    callee_ev = [e for e in pa.events if e.kind == "call" and e.res == pa.ret]
+                    ok = bool(callee_ev) and callee_ev[0].callee in CONTAINER_OPS
+                    # before delegating, nothing may have been modified unless that earlier step succeeded
+                    natom += 1
+                    chk.ob(rule, "%s path %d delegates to %s" % (name, k, callee_ev[0].callee if callee_ev else "?"), ok, where,
+                           fn=name, key="%s:delegate:%d" % (name, k))
+                continue
+            bad = []
+            for e in pa.events:
+                if e.kind == "store":
+                    b = ptr_key(e.args[0])[0]
+                    if P.derives(b, CONT):
+                        bad.append("store at %s" % e.ins.loc())
+                elif e.kind == "call" and e.ckind == "lib":
+                    if e.callee == "cbor_incref":
+                        bad.append("incref at %s" % e.ins.loc())
+                    elif e.callee in CONTAINER_OPS:
+                        if pa.st.truth.get(e.res) is not False and not _falsy(pa.st, e.res):
+                            bad.append("nested %s succeeded before the failure at %s" % (e.callee, e.ins.loc()))
+                    elif e.callee in ("_cbor_realloc_multiple",):
+                        if not pa.st.known_null(e.res):
+                            bad.append("reallocation succeeded but the operation reports failure (block lost) at %s" % e.ins.loc())
+                    elif e.callee == "cbor_intermediate_decref" or e.callee == "cbor_decref":
+                        bad.append("release at %s" % e.ins.loc())
+            natom += 1
+            chk.ob(rule, "%s path %d returns false without side effects" % (name, k), not bad, where, fn=name,
+                   key="%s:false:%d" % (name, k), detail="; ".join(bad), path=pa.block_lines() if bad else None)
+    if floor:
+        chk.floor(rule, "failure paths of container operations", natom, floor)
+    return natom
+
